@@ -19,6 +19,8 @@ for src in sorted(glob.glob(os.path.join(d, "lib__*.cpp"))):
     cmd = re.sub(r"^ccache ", "", cmd)
     # the copy lives elsewhere: keep relative includes of the original directory working
     cmd = cmd.replace(" -c ", f" -I/repo/{os.path.dirname(rel)} -c ")
+    if os.path.isdir(os.path.join(d, "inc")):
+        cmd = cmd.replace(" -I", " -I" + os.path.join(d, "inc") + " -I", 1)
     r = subprocess.run(cmd, shell=True, cwd=B, capture_output=True, text=True)
     if r.returncode != 0:
         print(r.stderr[-3000:]); sys.exit(1)
@@ -31,5 +33,8 @@ libs = "-ldl -lboost_coroutine -lboost_context -lboost_date_time -lboost_filesys
 r = subprocess.run(["g++", "-pthread", "-o", os.path.join(d, "h_c17"), "/verif/_work/bin/c17.o", "@" + os.path.join(d, "c17.rsp")] + libs, capture_output=True, text=True)
 if r.returncode != 0:
     print(r.stderr[-3000:]); sys.exit(1)
+for hdr in sorted(glob.glob(os.path.join(d, "inc", "*", "*.hpp"))):
+    rel = "lib/" + os.path.relpath(hdr, os.path.join(d, "inc"))
+    diff += subprocess.run(["diff", "-u", "--label", "a/" + rel, "--label", "b/" + rel, "/repo/" + rel, hdr], capture_output=True, text=True).stdout
 open(os.path.join(d, name + ".diff"), "w").write(diff)
 print("built", name, "diff lines", diff.count("\n"))
